@@ -1,7 +1,9 @@
 /-
   Oracle commands for C05 (GGUF codec):
-    gguf-enc <pinned 0|1> <nkv> {keyhex tag payload}* <nt> {namehex kind <ndims> dims* datahex}*
-        -> ok <hex> | panic:<site>
+    gguf-enc <variant> <nkv> {keyhex tag payload}* <nt> {namehex kind <ndims> dims* datahex}*
+        -> ok <hex> | err:invalid | panic:<site>
+        variant bit 0: pinned offset accumulator (F1); bit 1: the writer validates general.alignment (F1c repaired) —
+        bit 1 is PROBED on the real writer by the driver on every run
     gguf-dec <maxArray> <budget|-> <hex>
         -> ok <summary> | err:eof | err:invalid | panic:<site> | alloc:<site>
     gguf-dec-at <maxArray> <start> <hex>
@@ -17,10 +19,10 @@ def handle (toks : List String) : Option String :=
   match toks with
   | "gguf-enc" :: rest =>
     runTP (do
-      let pinned ← nat
+      let variant ← nat
       let kvs ← listOf pKV
       let ts ← listOf pTIn
-      pure (match encode (pinned != 0) kvs ts with
+      pure (match encode (variant % 2 != 0) kvs ts (variant / 2 % 2 != 0) with
         | .ok bs => s!"ok {hexOrDash bs}"
         | .error e => showErr e)) rest
   | "gguf-dec" :: rest =>
